@@ -48,6 +48,7 @@ class Ctx:
         if self.work.exists():
             shutil.rmtree(self.work, ignore_errors=True)
         self.work.mkdir(parents=True, exist_ok=True)
+        shutil.rmtree(REPLAYS / prop, ignore_errors=True)   # replay files of earlier runs are stale
         self.t0 = time.time()
         self.quick = tier == "quick"
 
@@ -140,14 +141,23 @@ class Report:
         for key, hit in sorted(self.known_hits.items()):
             f = self._known[key]
             lines.append(f"KNOWN-FINDING: property={ctx.prop} {key}: {f['description']} ({hit['count']} cases this run)")
-        seen = set()
+        bykey: dict[str, int] = {}
         for v in self.violations:
+            bykey[str(v["key"])] = bykey.get(str(v["key"]), 0) + 1
+        if bykey:
+            lines.append(f"violations by finding key: {json.dumps(bykey, sort_keys=True)}")
+        seen = set()
+        seen_keys: dict[str, int] = {}
+        for v in sorted(self.violations, key=lambda v: str(v["key"])):
+            seen_keys[str(v["key"])] = seen_keys.get(str(v["key"]), 0) + 1
+            if seen_keys[str(v["key"])] > 3:
+                continue
             blob = json.dumps({"property": ctx.prop, **v}, sort_keys=True, default=str)
             h = hashlib.sha1(blob.encode()).hexdigest()[:12]
             if h in seen:
                 continue
             seen.add(h)
-            if len(seen) > 20:
+            if len(seen) > 40:
                 break
             rdir.mkdir(parents=True, exist_ok=True)
             path = rdir / f"{h}.json"
@@ -166,6 +176,7 @@ class Report:
             "exhaustive": self.exhaustive,
             "tlc_runs": self.tlc_runs,
             "known_findings_reproduced": {k: h["count"] for k, h in self.known_hits.items()},
+            "violations_by_key": bykey,
             **self.notes,
         }
         ev = {
